@@ -122,13 +122,21 @@ def run(tier, seed):
         s = g.doc(nrules=rng.choice([1, 1, 2, 3]), depth=rng.choice([0, 1, 1, 2, 2]))
         if len(json.dumps(s)) < 2500:
             shapes.append(fix_shape(drv, s)[1])
-    base_rs = roundtrips(drv, [render_shape(s) for s in shapes])
+    structured = base.comment_bases()
+    base_rs = roundtrips(drv, structured + [render_shape(s) for s in shapes])
+    for t, b in zip(structured, base_rs):
+        if verdict(b) != "ok":
+            res.violation("a structured base document does not survive formatting (%s): %r prints as %r" % (verdict(b), t, b.get("p1")),
+                          {"kind": "doc", "text": t, "comments": []})
+    shapes = [None] * len(structured) + shapes
     bases = [b for b in base_rs if verdict(b) == "ok"]
     evaluations += len(base_rs)
     # a comment-free base document (C06's known-finding constructs already neutralised) whose formatted text is rejected or
     # parses to other rules/choices/entries violates the last clause of C16 as well
     bad_bases = [(s, b) for s, b in zip(shapes, base_rs) if verdict(b) in ("print-rejected", "shape-diff", "panic")]
     for s, b in bad_bases[:3]:
+        if s is None:
+            continue
         t = render_shape(s)
         res.violation("the formatted text of a comment-free document does not parse to the same rules, choices and entries (%s): %r prints as %r"
                       % (verdict(b), t[:300], (b.get("p1") or "")[:300]), {"kind": "doc", "text": t, "comments": []})
@@ -255,7 +263,7 @@ def run(tier, seed):
                 "document round-trips); a comment (texts with ';', quotes, apostrophes, brackets, non-ASCII, empty) is injected at EVERY inter-token "
                 "gap, one at a time (last one also without final line break), and in random subsets of 2-10 gaps with random layout; "
                 "distinct_nontrivial = distinct commented document texts",
-        "base_documents": len(bases),
+        "base_documents": len(bases), "structured_base_documents": len(structured),
         "verdict_split": stats,
         "source_comments": n_comments, "attached_comments": n_attached, "orphaned_or_dropped_comments": n_orphans,
         "attached_slot_histogram": slot_hist,
